@@ -110,7 +110,7 @@ void solver_round(vt::Rng& rng)
     const auto functions = function_t::make(config);
     const auto ids = std::vector<std::string>{"gd",  "cgd-pr", "cgd-n",     "lbfgs", "bfgs", "dfp",   "sr1",  "fletcher", "hoshino", "osga",
                                                "sgm", "cocob",  "ellipsoid", "asga2", "sda",  "wda",   "pgm",  "dgm",      "fgm",     "rqb",
-                                               "fpba1", "fpba2"};
+                                               "fpba1", "fpba2", "cgd-hs", "cgd-fr", "cgd-cd", "cgd-ls", "cgd-dy", "cgd-dycd", "cgd-dyhs", "cgd-frpr", "asga4"};
     for (const auto& id : ids)
     {
         const auto solver = solver_t::all().get(id);
@@ -138,7 +138,7 @@ void solver_round(vt::Rng& rng)
             x0s.push_back(vt::random_x0(rng, f->size(), 1.0));
         }
         const solver_t& shared = *solver; // only the const interface is used below
-        compare("minimize:" + id, ntasks, rng.range(2, 8), rng,
+        compare("minimize:" + id, ntasks, (rng.coin(1, 4) ? rng.range(9, 16) : rng.range(2, 8)), rng,
                 [&](int64_t task)
                 {
                     const auto function = fs[static_cast<size_t>(task)]->clone(); // each call with its own function object
@@ -164,7 +164,7 @@ void loss_round(vt::Rng& rng)
             }
         }
         const loss_t& shared = *loss;
-        compare("loss:" + id, 3, rng.range(2, 8), rng,
+        compare("loss:" + id, 3, (rng.coin(1, 4) ? rng.range(9, 16) : rng.range(2, 8)), rng,
                 [&](int64_t task)
                 {
                     hash_t h;
@@ -205,7 +205,7 @@ void dataset_round(vt::Rng& rng)
         }
         lists.push_back(list);
     }
-    compare("dataset", 4, rng.range(2, 8), rng,
+    compare("dataset", 4, (rng.coin(1, 4) ? rng.range(9, 16) : rng.range(2, 8)), rng,
             [&](int64_t task)
             {
                 hash_t     h;
@@ -262,7 +262,7 @@ void dataset_round(vt::Rng& rng)
     gboost.prototypes(prototypes);
     gboost.fit(dataset, samples, *loss);
     const gboost_model_t& shared = gboost;
-    compare("predict:gboost", 4, rng.range(2, 8), rng,
+    compare("predict:gboost", 4, (rng.coin(1, 4) ? rng.range(9, 16) : rng.range(2, 8)), rng,
             [&](int64_t task)
             {
                 hash_t h;
@@ -274,7 +274,7 @@ void dataset_round(vt::Rng& rng)
         auto linear = linear_t::all().get("ridge");
         linear->fit(dataset, samples, *loss);
         const linear_t& lshared = *linear;
-        compare("predict:linear", 4, rng.range(2, 8), rng,
+        compare("predict:linear", 4, (rng.coin(1, 4) ? rng.range(9, 16) : rng.range(2, 8)), rng,
                 [&](int64_t task)
                 {
                     hash_t h;
@@ -323,11 +323,48 @@ bool close(const tensor4d_t& a, const tensor4d_t& b)
     return true;
 }
 
+std::vector<double> tuning_of(const ml::result_t& result)
+{
+    std::vector<double> out{static_cast<double>(result.trials()), static_cast<double>(result.folds())};
+    for (tensor_size_t trial = 0; trial < result.trials(); ++trial)
+    {
+        const auto params = result.params(trial);
+        out.insert(out.end(), params.begin(), params.end());
+        for (const auto split : {ml::split_type::train, ml::split_type::valid})
+        {
+            for (const auto value : {ml::value_type::errors, ml::value_type::losses})
+            {
+                out.push_back(result.value(trial, split, value));
+            }
+        }
+    }
+    return out;
+}
+
+double tuning_maxrel(const std::vector<double>& a, const std::vector<double>& b)
+{
+    if (a.size() != b.size())
+    {
+        return 1e9;
+    }
+    double m = 0.0;
+    for (size_t i = 0; i < a.size(); ++i)
+    {
+        if (a[i] == b[i] || (!std::isfinite(a[i]) && !std::isfinite(b[i])))
+        {
+            continue;
+        }
+        m = std::max(m, std::fabs(a[i] - b[i]) / (1e-12 + std::max(std::fabs(a[i]), std::fabs(b[i]))));
+    }
+    return m;
+}
+
 void fit_case(const uint64_t pseed, const bool is_gboost, const std::string& linear_id, int64_t icase)
 {
     // the same fit with internal pools capped at 1, 2 and 16 threads and dataset pools of 1, 3, 16 threads
     std::vector<tensor4d_t> predictions;
     std::vector<indices_t>  features;
+    std::vector<std::vector<double>> tunings; // per variant: trials, their hyper-parameters and (train, valid) x (errors, losses) values
     std::vector<std::string> sigs; // per variant: the sequence of (weak learner, selected features) - for the replay artefact
     std::string             desc;
     for (int variant = 0; variant < 3; ++variant)
@@ -368,7 +405,7 @@ void fit_case(const uint64_t pseed, const bool is_gboost, const std::string& lin
             {
                 params.logger(make_file_logger(std::string(dir) + "/fit_" + std::to_string(icase) + "_" + std::to_string(variant) + ".log"));
             }
-            model.fit(dataset, samples, *loss, params);
+            tunings.push_back(tuning_of(model.fit(dataset, samples, *loss, params)));
             predictions.push_back(model.predict(dataset, samples));
             features.push_back(model.features());
             std::string sig;
@@ -395,7 +432,7 @@ void fit_case(const uint64_t pseed, const bool is_gboost, const std::string& lin
             const auto smooth = model->type_id() == "ordinary" || model->type_id() == "ridge";
             auto       solver = solver_t::all().get(smooth ? "lbfgs" : "fpba1");
             solver->parameter("solver::max_evals") = 2000;
-            model->fit(dataset, samples, *loss, ml::params_t{}.solver(*solver).splitter(*splitter));
+            tunings.push_back(tuning_of(model->fit(dataset, samples, *loss, ml::params_t{}.solver(*solver).splitter(*splitter))));
             predictions.push_back(model->predict(dataset, samples));
             features.push_back(indices_t{});
             sigs.emplace_back();
@@ -407,7 +444,8 @@ void fit_case(const uint64_t pseed, const bool is_gboost, const std::string& lin
     for (size_t v = 1; v < predictions.size(); ++v)
     {
         vt::put(vt::J("Fit").i("case", icase).s("model", desc).i("variant", static_cast<int64_t>(v)).b("sameFeatures", features[v] == features[0] && sigs[v] == sigs[0]).b(
-            "closePredictions", close(predictions[v], predictions[0])).s("pseed", std::to_string(pseed)).s("linear", linear_id).i("maxrel_e9", static_cast<int64_t>(std::min(1e9 * maxrel(predictions[v], predictions[0]), 2e9))).s("model0", sigs[0]).s("modelv", sigs[v]));
+            "closePredictions", close(predictions[v], predictions[0])).s("pseed", std::to_string(pseed)).s("linear", linear_id).i("maxrel_e9", static_cast<int64_t>(std::min(1e9 * maxrel(predictions[v], predictions[0]), 2e9))).s("model0", sigs[0]).s("modelv", sigs[v]).b("sameTuning", tuning_maxrel(tunings[v], tunings[0]) <= 1e-5).i(
+            "tuning_maxrel_e9", static_cast<int64_t>(std::min(1e9 * tuning_maxrel(tunings[v], tunings[0]), 2e9))));
     }
 }
 } // namespace
